@@ -10,21 +10,24 @@ inv, n = sys.argv[1], int(sys.argv[2])
 variant = sys.argv[3] if len(sys.argv) > 3 and sys.argv[3] != "-" else None
 hints = sys.argv[4] if len(sys.argv) > 4 and sys.argv[4] != "-" else ""
 extra = sys.argv[5] if len(sys.argv) > 5 else ""
+pre = sys.argv[6] if len(sys.argv) > 6 and not sys.argv[6].startswith("--") else ""
 hs = ", ".join(f"h{i+1}" for i in range(n))
 vb = "{v : Variant} " if not variant else ""
 vv = "v" if not variant else variant
 gr = f"grind [{hints}]" if hints else "grind"
 vsimp = ", Variant.good" if variant else ""
-print(f"""theorem {inv.lower()}_releaseHold {{s : State}} {{q : ReqId}} {extra} (h : {inv} s) : {inv} (releaseHold s q) := by
+manual = "--manual-cfin" in sys.argv
+if not manual:
+  print(f"""theorem {inv.lower()}_releaseHold {{s : State}} {{q : ReqId}} {extra} (h : {inv} s) : {inv} (releaseHold s q) := by
   obtain ⟨{hs}⟩ := h
-  unfold releaseHold
+{pre}  unfold releaseHold
   split
   · exact ⟨{hs}⟩
   · constructor <;> (sched_unfold; {gr})
 
 theorem {inv.lower()}_finishOn {{s : State}} {{r : Rid}} {extra} (h : {inv} s) : {inv} (finishOn s r) := by
   obtain ⟨{hs}⟩ := h
-  unfold finishOn
+{pre}  unfold finishOn
   simp only []
   (repeat' split) <;> (constructor <;> (sched_unfold; {gr}))
 """)
@@ -42,10 +45,12 @@ for a, ps in ACTS:
     app = f"(.{a} {ps})" if ps else f".{a}"
     print(f"""theorem {inv.lower()}_{a} {vb}{{s s' : State}} {binders} {extra} (h : {inv} s) (hs : step {vv} s {app} = some s') : {inv} s' := by
   obtain ⟨{hs}⟩ := h
-  simp only [step, triggerExpire{vsimp}] at hs
+{pre}  simp only [step, triggerExpire{vsimp}] at hs
   (repeat' split at hs) <;> (try cases hs)
   all_goals (first | exact ⟨{hs}⟩ | (constructor <;> (sched_unfold; {gr})))
 """)
+if "--no-step" in sys.argv:
+    sys.exit(0)
 ex_names = " ".join(w.split(":")[0].strip("( ") for w in extra.split(")") if ":" in w)
 print(f"""theorem {inv.lower()}_step {vb}{{s s' : State}} (a : Act) {extra} (h : {inv} s) (hs : step {vv} s a = some s') : {inv} s' := by
   cases a""")
